@@ -67,6 +67,11 @@ CLAIMED = {
    note="Bounds: <=3 markers on <=2 chromosomes, 2-3 taxa (all index tuples), traits<=2, nself in {0,1,2} (3 thorough) plus the closed-form inf branch against 2r/(1+2r); pairwise-in-r identities (multi-locus consistency of the Haldane map is C02's composition law); exact reals.",
    technique="symbolic execution on z3-term arrays (symnp) + z3 (QF_NRA, denominators cleared) against an exact polynomial gamete-enumeration oracle; replay on real numpy",
    design="2/C12"),
+   "C04": dict(
+   text="Bounded symbolic model checking of the real DenseAdditiveLinearGenomicModel / DenseAdditiveDominanceLinearGenomicModel (gebv, gegv, predict, gebv_numpy, var_G/var_A/var_a, bulmer, score_numpy, facount...dapoly) and rrBLUPModel0 (fit_numpy assembly, gauss_seidel): effects, intercepts, covariates and phenotypes symbolic, GenotypeMatrix calls enumerated by forking, raw dosage arrays symbolic reals; z3 proves values = intercept + dosage.effects (+ heterozygosity.dominance), predict = X.beta + Z.u, label preservation, invariance under taxon order / phased vs unphased vs raw input / marker partition, every statistic equal to its definition; for rrBLUP with stubbed optimiser: intercept = training mean, monomorphic markers excluded and given zero effect, the solved system is (Z'Z + (varE/varU) I, Z'(y-mean)) for arbitrary positive variance components, each Gauss-Seidel sweep does not increase the penalised criterion (never worse than all-zero) and a converged iterate satisfies the normal equations up to the residual identity.",
+   note="Bounds: taxa<=2-3, markers<=2 (3), traits<=2, ploidy 2; exact reals (quantities built from concrete float frequencies compared with 1e-9 relative tolerance); ML optimum, eigendecomposition and Gauss-Seidel convergence within maxiter are outside.",
+   technique="symbolic execution on z3-term arrays (symnp) + z3 (QF_NRA); optimiser/eigh stubbed by contract; replay on real numpy",
+   design="2/C04"),
 }
 NA = {}
 for pid in props:
